@@ -229,6 +229,12 @@ def check_value(spec):
         doc = enc_value(v)
     except Exception as e:  # noqa: BLE001
         return [(f"value:{k}:encode-raised", f"{spec}: {type(e).__name__}: {e}")]
+    try:
+        v1 = O.build_value(spec, one_shot=True)
+        if enc_value(v1) != doc:
+            bad("one-shot-iterables", "the same value built from one-shot iterators encodes differently")
+    except Exception as e:  # noqa: BLE001
+        bad("one-shot-iterables:raised", f"{type(e).__name__}: {e}")
     r = _try(lambda: dec_value(doc))
     if r[0] != "ok":
         return [(f"value:{k}:decode-raised", f"{spec}: decoding raised {r[1]}")]
